@@ -329,10 +329,22 @@ func VerifH_proxy() {
 		body = append(body, 0, 0, 0, 0, byte(len(p)))
 		body = append(body, p...)
 	}
+	// the front end: gRPC, or - for a succeeding unary call - plain HTTP (POST /Service/Method with
+	// the message as body, the implicit binding): the same backend must see the same call
+	httpFront := shape == 0 && !fail && vfBool()
+	if httpFront {
+		body = reqs[0]
+		vfCover("http-front")
+	}
 	hb := &vfHoldBody{data: body, hold: hold, closed: make(chan struct{})}
 	r := &http.Request{Method: "POST", URL: &url.URL{Path: "/vf.P/" + name},
 		Header: http.Header{"Content-Type": []string{"application/grpc+dual"}, "Te": []string{"trailers"}, "X-Md": mdvals},
 		Body:   hb, ContentLength: -1, ProtoMajor: 2}
+	if httpFront {
+		r.Header = http.Header{"Content-Type": []string{"application/dual"}, "Accept": []string{"application/dual"}, "X-Md": mdvals}
+		r.ContentLength = int64(len(body))
+		r.ProtoMajor, r.ProtoMinor = 1, 1
+	}
 	if grpcKey {
 		r.Header["Grpc-Previous-Rpc-Attempts"] = []string{"2"}
 		r.Header["X-Tok-Bin"] = []string{"3q2+7w=="} // binary metadata written WITH base64 padding (non-Go clients)
@@ -344,6 +356,20 @@ func VerifH_proxy() {
 	})
 	w.finish()
 
+	if httpFront {
+		vfCheck(w.status == 200 && vfBytesEq(w.body, sc.replies[0]), "an HTTP client of a proxied unary call did not receive exactly the backend's reply")
+		vfCheck(obs.calls == 1 && len(obs.reqs) == 1 && vfBytesEq(obs.reqs[0], reqs[0]), "the backend of a proxied unary call made over HTTP did not receive exactly the client's message")
+		vfCheck(len(obs.md) == len(mdvals), "the backend did not receive the HTTP client's request metadata (all values of the key)")
+		for i := range mdvals {
+			vfCheck(i < len(obs.md) && obs.md[i] == mdvals[i], "the backend did not receive the HTTP client's request metadata values in order")
+		}
+		if grpcKey {
+			vfCheck(len(obs.mdBin) == 1 && obs.mdBin[0] == "\xde\xad\xbe\xef", "binary request metadata of an HTTP client did not reach the backend byte-exact")
+		}
+		vfCover(name)
+		vfCover("succeeds")
+		return
+	}
 	// what the client received
 	var got [][]byte
 	bodyOK := true
